@@ -11,7 +11,88 @@ import (
 )
 
 // call handles Call and Defer instructions. res is nil for defers / go.
+// call executes a call instruction; assertions anchored at this call site
+// (before / after clauses of the function under verification) become
+// obligations in the caller's context.
 func (f *Frame) call(in ssa.CallInstruction, res *ssa.Call) {
+	c := in.Common()
+	var mine []*CallAssert
+	if f.parent == nil && f.spec != nil && len(f.spec.CallAsserts) > 0 {
+		if _, isB := c.Value.(*ssa.Builtin); !isB {
+			name := shortCallee(c)
+			short := name
+			if i := strings.Index(name, "."); i >= 0 {
+				short = name[i+1:]
+			}
+			f.ncall["@site:"+name]++
+			n := f.ncall["@site:"+name]
+			for _, ca := range f.spec.CallAsserts {
+				if (ca.Callee == name || ca.Callee == short) && ca.N == n {
+					mine = append(mine, ca)
+				}
+			}
+		}
+	}
+	idx := -1
+	if len(mine) > 0 {
+		for i, x := range in.Block().Instrs {
+			if x == in.(ssa.Instruction) {
+				idx = i
+			}
+		}
+	}
+	emit := func(after bool) {
+		for _, ca := range mine {
+			if ca.After != after {
+				continue
+			}
+			env := f.baseEnv(f.cur)
+			cur := f.cur
+			blk := in.Block()
+			env.lookup = func(name string) (TV, bool) { return f.lookupVarFromIdx(name, blk, idx, cur) }
+			var argVals []ssa.Value
+			if c.IsInvoke() {
+				argVals = append(argVals, c.Value)
+			}
+			argVals = append(argVals, c.Args...)
+			for i, a := range argVals {
+				if _, isLV := f.lvals[a]; isLV {
+					continue
+				}
+				env = env.with(fmt.Sprintf("arg%d", i), TV{f.val(a), a.Type()})
+			}
+			if after && res != nil {
+				if tup, ok := f.tuples[res]; ok {
+					tt := res.Type().(*types.Tuple)
+					for i := 0; i < tt.Len() && i < len(tup); i++ {
+						env = env.with(fmt.Sprintf("ret%d", i), TV{tup[i], tt.At(i).Type()})
+					}
+				} else if t, ok := f.vals[res]; ok {
+					env = env.with("ret0", TV{t, res.Type()})
+				}
+			}
+			tv, err := env.tr(ca.C.Expr)
+			if err != nil {
+				f.vc.errorf("%s:%d: %v", ca.C.File, ca.C.Line, err)
+				continue
+			}
+			kind := "before"
+			if after {
+				kind = "after"
+			}
+			nm := ca.C.Name
+			if nm == "" {
+				nm = fmt.Sprintf("l%d", ca.C.Line)
+			}
+			f.oblige("call-assert", fmt.Sprintf("%s:%s#%d/%s", kind, ca.Callee, ca.N, nm), tv.T, ca.C.Text, in.Pos())
+		}
+	}
+	emit(false)
+	f.callInner(in, res)
+	emit(true)
+}
+
+func (f *Frame) callInner(in ssa.CallInstruction, res *ssa.Call) {
 	vc := f.vc
 	c := in.Common()
 	var args []string
